@@ -164,7 +164,7 @@ def validate_trace(trace_module, cfg, trace_path, env=None, timeout=900, tag=Non
                 java_opts=TLC_JAVA_TRACE)
     out = r["out"]
     acc = tlc_printed_raw(out, "ACCEPT")
-    rej = tlc_printed_raw(out, "REJECT")
+    rej = tlc_printed(out, "REJECTJSON")
     r["accepted"] = bool(acc) and not rej and r["ok"]
     r["reject"] = rej[0] if rej else None
     if not acc and not rej:
